@@ -61,6 +61,13 @@ RULE = ('masks: circle (centred/off-centre), hexagon (both orientations, shifted
         'oracle only; HIGH NOLL INDICES: modes drawn from 1..45 (unordered, gapped; permutations of 1..k), linear '
         'independence judged with the harness\'s own reference Noll modes so that modes made dependent by the '
         'implementation are reported instead of skipped; '
+        'ILL-CONDITIONED independent sets (1 per quick run, ~20 per thorough run + corpus): a 5-7 px off-axis segment in '
+        'the coordinates of its parent aperture inside 256..700 px arrays, 14-24 modes, 1e8 <= cond <= 1e12, round trip '
+        'fit(compose(c)) = c at 1e-13 * cond (measured 0.12 eps cond on the unchanged code); SIGNED masks (every non-zero '
+        'entry is aperture; outermost support rows / columns without a positive entry); ndarray SUBCLASSES as opd / mask '
+        '(MaskedArray with and without masked entries, np.matrix, a metadata subclass, np.memmap) must give the result of '
+        'the plain data and leave caller memory untouched; normalize as np.bool_ / 0 / 1; homogeneity of fit and remove '
+        '(k = 1e-9); float32 OPDs also at metre scale; '
         'ARGUMENT FORMS (45 % of the single-call cases + corpus/c12/argument_forms.json): mask / opd as Fortran-ordered, '
         'strided or negatively strided views or nested lists, opd as float32 or integer array, modes as tuple / ndarray '
         '(int64, int32, uint8) / scalar / 0-d array, coefficients as tuple / ndarray, rho without theta (ValueError) and '
